@@ -17,6 +17,9 @@ def load_mod(prop):
     return importlib.import_module("props." + prop.lower())
 
 
+TWIN_TURN = [0]
+
+
 def run_one(mod, case):
     """run the implementation on one case; returns (out, violations)"""
     viol = []
@@ -34,7 +37,8 @@ def run_one(mod, case):
     # the same case under the second decoding of the labels (common.twin_labels): same coded result
     if (getattr(mod, "twin_ok", None) and mod.twin_ok(case)) or (os.environ.get("VERIF_TWIN_TRY") and C.no_matrix(case)):
         try:
-            with C.twin_labels():
+            TWIN_TURN[0] += 1
+            with C.twin_labels(TWIN_TURN[0] % 2):        # the two variants take turns
                 out2 = mod.run_impl(case)
         except Exception as e:
             out2 = {"unexpected": "".join(traceback.format_exception_only(type(e), e)).strip()}
